@@ -49,6 +49,7 @@ def run(ctx):
     if tvh is None:
         ctx.violation("harness does not build against /repo", {"unchecked": "cargo build"}, concrete=False)
         return
+    regression_lines(ctx, tvh, ["c10"])
     strs, nexh = gen_strings(ctx)
     cases = []
     for s in strs:
